@@ -48,7 +48,8 @@ def draw_case(data, tier):
     if not have_dyn:
         entries[0]["c"] = 1
     return {"d": d, "shape": list(shape), "n": n, "past": past, "entries": entries, "seed": data.draw(st.integers(0, 9999), label="seed"),
-            "out_order_rev": data.draw(st.booleans(), label="model_output_reversed")}
+            "out_order_rev": data.draw(st.booleans(), label="model_output_reversed"),
+            "explicit_zero": data.draw(st.booleans(), label="explicit_zero_entries")}
 
 
 class _Model:
@@ -116,6 +117,11 @@ def run_case(case):
     tor = tuple([True] + [False] * (d - 1))
     x = geom.MultiImage({t: jnp.asarray(a, dtype=jnp.float32) for t, a in x0.items()}, d, tor)
     const_dict = {tuple(e["type"]): e["nconst"] for e in entries if e["nconst"] > 0}
+    if case.get("explicit_zero"):
+        # a type without constant fields may be listed with an explicit 0 (concat_inverse treats a missing key and 0 alike)
+        for e in entries:
+            const_dict.setdefault(tuple(e["type"]), 0)
+        labels.append("explicit_zero_entries")
     model = _Model(case, coefW, coefC)
     out, _ = ml.autoregressive_map(model, x, None, past, n, const_dict)
 
